@@ -15,20 +15,31 @@ import vlib
 from vlib import Check, run_tlc, run_cmd, build_harness, FrameworkError, WORK, log
 
 LATTICE = ["rv1", "rv2", "rv3", "so2", "so3", "time", "disc", "torus", "se2", "se3", "nest", "hybrid",
-           "rot3", "wrap-se2", "wrap-so3", "wrap-nest", "se2w", "se3w", "nest-se2w", "nest-se3w", "wrap-se2w"]
+           "rot3", "wrap-se2", "wrap-so3", "wrap-nest", "se2w", "se3w", "nest-se2w", "nest-se3w", "wrap-se2w",
+           "empty", "spacetime", "spacetime2"]
 # heaviest first so that the pool finishes evenly
 ORDER = ["se3", "nest", "rot3", "se3w", "nest-se3w", "se2", "se2w", "nest-se2w", "wrap-se2w", "torus", "so3", "wrap-so3", "wrap-nest", "so2", "rv3", "rv2", "hybrid",
-         "wrap-se2", "rv1", "time", "disc"]
-INVARIANTS = {6: "NonNegative Identity Positivity Symmetry ExtentBound CompoundIsWeightedSum Triangle",
+         "spacetime2", "spacetime", "wrap-se2", "rv1", "time", "disc", "empty"]
+INVARIANTS = {6: "NonNegative Identity Positivity Symmetry ExtentBound CompoundIsWeightedSum Triangle SpaceTimeLaw",
               7: "Endpoints StaysInBounds Reparameterisation Proportionality"}
 NEED_CLASSES = {
     6: ["so2:antipodal", "so2:seam", "so2:coincident", "so2:minus-pi", "so3:negated", "so3:long-way", "so3:orthogonal",
-        "so3:coincident", "rv:extent", "rv:coincident", "time:extent", "disc:extent"],
+        "so3:coincident", "rv:extent", "rv:coincident", "time:extent", "disc:extent",
+        "spacetime:unreachable", "spacetime:on-the-light-cone", "spacetime:reachable-generic"],
     7: ["so2:antipodal", "so2:seam", "so2:lands-on-minus-pi", "so2:minus-pi", "so3:long-way", "so3:orthogonal",
-        "so3:negated", "rv:extent", "t:0", "t:1", "u:1"],
+        "so3:negated", "rv:extent", "t:0", "t:1", "u:1", "spacetime:unreachable", "spacetime:on-the-light-cone"],
 }
 PROBE_CLASSES = ["random", "lattice", "seam", "antipodal", "near-antipodal", "coincident", "near-1e-9", "near-1e-12",
-                 "bound", "corner", "pivot", "so3-threshold"]
+                 "bound", "corner", "pivot", "so3-threshold", "level", "altitude", "light-cone", "canned-level",
+                 "canned-climb", "canned-loop"]
+# what the recording must have met in the spaces with laws of their own (counted by the harness from the real objects)
+NEED_FACTS = {
+    6: ["airplane_pairs_with_path", "spacetime_finite", "spacetime_infinite"],
+    7: ["airplane_interp_with_path", "Owen_path_category_L", "Owen_path_category_M", "Owen_path_category_H",
+        "VanaOwen_path_category_L", "VanaOwen_path_category_M", "VanaOwen_path_category_H",
+        "spacetime_interp_reachable", "spacetime_interp_unreachable", "constrained_geodesic_succeeded",
+        "constrained_geodesic_failed"],
+}
 D2_KEY = "so2-interpolate-plus-pi"
 
 
@@ -237,6 +248,9 @@ def trace_phase(ck, pend, pid, prop, binary, tier):
     missing = [c for c in PROBE_CLASSES if not recd["classes"].get(c)]
     if missing:
         raise FrameworkError("vacuity gate: probe classes never recorded: %s" % missing)
+    missing = [c for c in NEED_FACTS[prop] if not recd["facts"].get(c)]
+    if missing:
+        raise FrameworkError("vacuity gate: situations the recording never met: %s (met: %s)" % (missing, recd["facts"]))
     parts = _split_trace(tpath, 6 if tier == "quick" else 12)
     with concurrent.futures.ProcessPoolExecutor(max_workers=max(1, min(6, vlib.NCPU))) as ex:
         vals = list(ex.map(_validate, [(pid, p) for p in parts]))
@@ -268,9 +282,10 @@ def trace_phase(ck, pend, pid, prop, binary, tier):
                      (viol["space"], viol["law"], viol["n"], "triples" if prop == 6 else "interpolation probes",
                       bad.get("cls"), bad.get("repro"), json.dumps(obs, separators=(",", ":"))[:330]), rp, viol["n"])
     if prop == 6:
-        need = ["spaces", "triples", "triangle", "symmetry", "extent", "compound", "unequal"]
+        need = ["spaces", "triples", "triangle", "symmetry", "extent", "compound", "unequal", "straightLine", "stPairs",
+                "stInfinite", "stFinite"]
     else:
-        need = ["spaces", "interps", "reparam", "proportional"]
+        need = ["spaces", "interps", "reparam", "proportional", "noJumps", "interpBasic", "cInterps", "cReached", "cFailed"]
     if any(v["verdict"] is None for v in vals):
         return {"events": recd["events"], "nontrivial": recd["nontrivial"], "cnt": cnt}
     zero = [k for k in need if not cnt.get(k)]
@@ -282,7 +297,8 @@ def trace_phase(ck, pend, pid, prop, binary, tier):
     pick = [e for e in evs if e.get("cls") == "seam"][:1] + [e for e in evs if e.get("cls") == "near-antipodal"][-1:]
     for e in pick:
         ck.sample({"kind": "recorded observation (fixed point, micro-units)", "event": e})
-    return {"events": recd["events"], "nontrivial": recd["nontrivial"], "cnt": cnt, "classes": recd["classes"]}
+    return {"events": recd["events"], "nontrivial": recd["nontrivial"], "cnt": cnt, "classes": recd["classes"],
+            "facts": recd["facts"]}
 
 
 def run(pid, prop, tier, rule, assumptions):
@@ -307,6 +323,7 @@ def run(pid, prop, tier, rule, assumptions):
             ck.set("lattice_" + k, lat[k])
     ck.set("trace_law_applications", tr.get("cnt", {}))
     ck.set("probe_classes", tr.get("classes", {}))
+    ck.set("recorded_situations", tr.get("facts", {}))
     ck.set("exhaustive", False)
     return ck.finish()
 
